@@ -500,6 +500,28 @@ def run(ctx):
                     "python": "props.c12.check_arcset on the MIRP built as in section 1b of props/c12.py"})
         dist["far_from_origin_builds"] = dist.get("far_from_origin_builds", 0) + 1
 
+    # ---- 1c. float builds with port names of any spelling (a real port may be called "Dumai": only the helper's own
+    #          "Dum<k>" nodes are dummies) and an INTEGER-valued distance table next to fractional unit costs and fees ----
+    for (sname, dname, unit, fee_s, fee_d) in (("Tuban", "Dumai", 0.75, 0.25, 1.5), ("Dum", "S", 0.5, 1.25, 0.75), ("A-1", "Dum7x", 1.25, 0.5, 0.25)):
+        log = []
+        with recorded_calls(log):
+            m = MIRP(cargo_size=2, time_horizon=12)
+            m.add_nodes(sname, 1, 1, 4)
+            m.add_nodes(dname, 3, -1, 4)
+            m.add_travel_arcs(lambda a, b: 1 if a == sname else 2, 1, unit, {sname: fee_s}, {dname: fee_d})    # Python ints
+            m.add_exit_arcs()
+            m.add_entry_arcs(time_limit=7)
+        spec = spec_from_log(log)
+        msg = check_alternation(m, stats=stats) or check_arcset(m, spec)
+        if msg:
+            report(sig_of(msg) + "/names-and-int-distances", f"MIRP with ports {sname!r} (supply) and {dname!r} (demand), integer distances, "
+                   f"unit cost {unit}: {msg}",
+                   {"input": {"cargo_size": 2, "time_horizon": 12, "ports": [[sname, 1, 1, 4], [dname, 3, -1, 4]],
+                              "distance": f"1 from {sname}, 2 from {dname} (ints)", "speed": 1, "unit_cost": unit,
+                              "fees": {sname: fee_s, dname: fee_d}, "entry_limit": 7},
+                    "python": "props.c12.check_arcset on the MIRP built as in section 1c of props/c12.py"})
+        dist["named_port_builds"] = dist.get("named_port_builds", 0) + 1
+
     # ---- 2. exact builds: oracle + correspondence ----
     cases = []
     terms = []
